@@ -132,6 +132,10 @@ def realize(repo: Repo, chk: Check) -> None:
             continue
         if flag_if is not None and any(isinstance(c_, ast.Call) and isinstance(c_.func, ast.Name) and c_.func.id not in ("isinstance", "len", "bool") for c_ in ast.walk(flag_if.test)):
             raise AnalysisError(f"{s.where()}: whether a use {'reads' if which == 'copy-in' else 'writes'} the buffer is decided by `{ast.unparse(flag_if.test)[:60]}`, a helper the clause does not read")
+        if flag_if is not None and not isinstance(flag_if.test, ast.Name):
+            # no flag variable: the test itself is the classification
+            _classified_inline(chk, f, s, tv, op, which, rule, key)
+            continue
         flag = ast.unparse(flag_if.test) if flag_if is not None else None
         side = "inputs" if which == "copy-in" else "outputs"
         kernel_assigns = []
@@ -168,6 +172,95 @@ def realize(repo: Repo, chk: Check) -> None:
 KERNEL_KINDS = ("GenericOp", "StreamingRegionOpBase")
 
 
+def _judge_use_classes(classes, u: str, member: list[str], binds: dict, which: str, where_name: str):
+    """classes = (path conditions, answer, where): for each class of uses decide whether the answer is the one the property needs. Disjunctive conditions
+    (`not isinstance(u, K) or v in u.inputs`) are split into one class per disjunct"""
+    covered: set[str] = set()
+    bad_kernel: list[str] = []
+    ret_writer: list[str] = []
+    work = list(classes)
+    n_split = 0
+    while work:
+        facts, res, where = work.pop()
+        split = None
+        for i_, e_ in enumerate(facts):
+            e0 = norm.primary(e_)
+            if isinstance(e0, ast.BoolOp) and isinstance(e0.op, ast.Or) and not all(norm.match(T("isinstance($u, $k)"), d_, {"u": u}) is not None for d_ in e0.values) \
+                    and any(u in {n.id for n in ast.walk(d_) if isinstance(n, ast.Name)} for d_ in e0.values):
+                split = (i_, e0.values)
+                break
+        if split is not None and n_split < 16:
+            n_split += 1
+            i_, ds = split
+            for d_ in ds:
+                work.append(([*facts[:i_], *norm.atoms(d_, True), *facts[i_ + 1:]], res, where))
+            continue
+        pos: set[str] = set()
+        neg: set[str] = set()
+        for e_ in facts:
+            e_ = norm.primary(e_)
+            negated = norm.is_not(e_)
+            core = e_.operand if negated else e_  # type: ignore[attr-defined]
+            parts = core.values if isinstance(core, ast.BoolOp) and isinstance(core.op, ast.Or) and not negated else [core]
+            kinds_here: set[str] = set()
+            all_inst = True
+            for p2 in parts:
+                m = norm.match(T("isinstance($u, $k)"), p2, {"u": u})
+                if m is None:
+                    all_inst = False
+                    continue
+                kinds_here |= {k for k in (*KERNEL_KINDS, "ReturnOp") if k in ast.unparse(m["k"])}
+            if not all_inst:
+                continue
+            (neg if negated else pos).update(kinds_here)
+        txt = ast.unparse(res)
+        has_member = any(norm.any_match(member, e_, dict(binds)) is not None for e_ in facts)
+        if pos & set(KERNEL_KINDS):
+            covered |= pos & set(KERNEL_KINDS)
+            ok_ = norm.any_match(member, res, dict(binds)) is not None or (isinstance(res, ast.Constant) and res.value is True and has_member)
+            if not ok_:
+                bad_kernel.append(f"{where}: for {sorted(pos & set(KERNEL_KINDS))} the answer is `{txt[:60]}`")
+        elif set(KERNEL_KINDS) <= neg:
+            if which == "copy-out" and "ReturnOp" not in neg and "ReturnOp" not in pos:
+                if norm.any_match(["not isinstance($u, $k)"], res, {"u": u}) is not None and "ReturnOp" in txt:
+                    pass
+                elif isinstance(res, ast.Constant) and res.value is True:
+                    ret_writer.append(f"{where}: ops that are no kernels, func.return included, count as writers")
+                elif not (isinstance(res, ast.Constant) and res.value is False):
+                    raise AnalysisError(f"{where}: the answer for other ops is `{txt[:60]}`, a form this clause does not read")
+            elif which == "copy-out" and "ReturnOp" in pos and not (isinstance(res, ast.Constant) and res.value is False):
+                ret_writer.append(f"{where}: func.return answers `{txt[:40]}`")
+        elif not has_member and isinstance(res, ast.Constant) and res.value is True and any(
+                norm.any_match([m_.replace(".inputs", ".@").replace(".outputs", ".inputs").replace(".@", ".outputs") for m_ in member], e_, dict(binds)) is not None for e_ in facts):
+            bad_kernel.append(f"{where}: the copy is made because the value is among the op's {'outputs' if which == 'copy-in' else 'inputs'}")
+        elif has_member and isinstance(res, ast.Constant) and res.value is True and not (pos | neg) & set(KERNEL_KINDS):
+            # whatever the kind: the copy is made because the value is among the op's inputs (outputs) - the right answer for a kernel op
+            covered |= set(KERNEL_KINDS)
+        else:
+            raise AnalysisError(f"{where}: a class of uses in {where_name} is answered without a decided kernel-kind test ({sorted(pos)} / not {sorted(neg)})")
+    return covered, bad_kernel, ret_writer
+
+
+def _classified_inline(chk: Check, f: Func, s, tv: str, op: str, which: str, rule: str, key: str) -> None:
+    """the read / write test written as one condition on the way to the copy: judged on the path classes reaching the CopyOp construction"""
+    side = "inputs" if which == "copy-in" else "outputs"
+    member = [f"$op.results[0] in {tv}.{side}", f"$op.dest in {tv}.{side}"]
+    classes = []
+    for alt in s.state.alts:
+        facts = [x.expr for x in [*alt.facts.values(), *s.extra] if x.kind == "atom" and tv in {n.id for n in ast.walk(x.expr) if isinstance(n, ast.Name)}]
+        facts = [e_ for e_ in facts if not any(isinstance(c_, ast.Compare) and any(isinstance(o_, (ast.In, ast.NotIn)) for o_ in c_.ops) and isinstance(c_.left, ast.Name) and c_.left.id == tv
+                                              for c_ in [norm.primary(e_)])]  # `use in uses` is not about the kind of use
+        classes.append((facts, ast.Constant(True), s.where()))
+    covered, bad_kernel, ret_writer = _judge_use_classes(classes, tv, member, {"op": op}, which, f.name)
+    chk.result(not bad_kernel, rule, key + ":classification", s.where(),
+               f"a kernel op {'reads' if which == 'copy-in' else 'writes'} the buffer iff the cast value is in its {side}",
+               f"{bad_kernel[:2]}; expected `cast value in use_op.{side}` (an operand used as both input and output must count for both copies)")
+    chk.result(covered == set(KERNEL_KINDS), rule, key + ":kernel-kinds", s.where(), "linalg.generic and dart streaming regions are classified by operand role",
+               f"only {sorted(covered)} are classified by operand role")
+    if which == "copy-out":
+        chk.result(not ret_writer, rule, key + ":return-not-output", s.where(), "func.return is never treated as a writer", "; ".join(ret_writer[:2]))
+
+
 def _classified_by_helper(repo: Repo, chk: Check, f: Func, test: ast.expr, tv: str, op: str, which: str, rule: str, key: str, s) -> bool:
     """the read / write test of a use is `helper(use, cast value)`, a plain function of the module: the clauses are judged on the helper's
     return sites (path conditions + returned expression).  False = the test is not of this form."""
@@ -192,52 +285,14 @@ def _classified_by_helper(repo: Repo, chk: Check, f: Func, test: ast.expr, tv: s
     rets = [r for r in hfl.stmts(ast.Return) if r.reachable and r.node.value is not None]
     if not rets:
         raise AnalysisError(f"{h.where}: no return in the classification helper")
-    covered: set[str] = set()
-    bad_kernel: list[str] = []
-    ret_writer: list[str] = []
+    classes = []
     for r in rets:
         for alt in r.state.alts:
             facts = [x.expr for x in alt.facts.values() if x.kind == "atom"] + [x.expr for x in r.extra if x.kind == "atom"]
-            env = {k_: v_ for k_, v_ in alt.env.items()}
             from sa.flow import expand as _expand
-            res = norm.canon(norm.primary(_expand(r.node.value, env)))
-            pos: set[str] = set()
-            neg: set[str] = set()
-            for e_ in facts:
-                e_ = norm.primary(e_)
-                negated = norm.is_not(e_)
-                core = e_.operand if negated else e_  # type: ignore[attr-defined]
-                parts = core.values if isinstance(core, ast.BoolOp) and isinstance(core.op, ast.Or) and not negated else [core]
-                kinds_here: set[str] = set()
-                all_inst = True
-                for p2 in parts:
-                    m = norm.match(T("isinstance($u, $k)"), p2, {"u": u})
-                    if m is None:
-                        all_inst = False
-                        continue
-                    kinds_here |= {k for k in (*KERNEL_KINDS, "ReturnOp") if k in ast.unparse(m["k"])}
-                if not all_inst:
-                    continue
-                (neg if negated else pos).update(kinds_here)
-            # the returned expression may itself carry the case split: `return not isinstance(u, ReturnOp)` / `isinstance(..) and v in ..`
-            txt = ast.unparse(res)
-            if pos & set(KERNEL_KINDS):
-                covered |= pos & set(KERNEL_KINDS)
-                ok_ = norm.any_match(member, res) is not None or (isinstance(res, ast.Constant) and res.value is True and any(norm.any_match(member, e_) is not None for e_ in facts))
-                if not ok_:
-                    bad_kernel.append(f"{r.where()}: for {sorted(pos & set(KERNEL_KINDS))} the answer is `{txt[:60]}`")
-            elif set(KERNEL_KINDS) <= neg:
-                if which == "copy-out" and "ReturnOp" not in neg and "ReturnOp" not in pos:
-                    if norm.any_match(["not isinstance($u, $k)"], res, {"u": u}) is not None and "ReturnOp" in txt:
-                        pass
-                    elif isinstance(res, ast.Constant) and res.value is True:
-                        ret_writer.append(f"{r.where()}: ops that are no kernels, func.return included, count as writers")
-                    elif not (isinstance(res, ast.Constant) and res.value is False):
-                        raise AnalysisError(f"{r.where()}: the answer for other ops is `{txt[:60]}`, a form this clause does not read")
-                elif which == "copy-out" and "ReturnOp" in pos and not (isinstance(res, ast.Constant) and res.value is False):
-                    ret_writer.append(f"{r.where()}: func.return answers `{txt[:40]}`")
-            else:
-                raise AnalysisError(f"{r.where()}: a return of {h.name} is reached without a decided kernel-kind test ({sorted(pos)} / not {sorted(neg)})")
+            res = norm.canon(norm.primary(_expand(r.node.value, dict(alt.env))))
+            classes.append((facts, res, r.where()))
+    covered, bad_kernel, ret_writer = _judge_use_classes(classes, u, member, {}, which, h.name)
     chk.result(not bad_kernel, rule, key + ":classification", s.where(),
                f"a kernel op {'reads' if which == 'copy-in' else 'writes'} the buffer iff the cast value is in its {side} (decided in {h.name})",
                f"{bad_kernel[:2]}; expected `cast value in use_op.{side}` (an operand used as both input and output must count for both copies)")
